@@ -651,6 +651,64 @@ class Columns(Part):
         return res
 
 
+class ListShapes(Part):
+    name = "preserved_network_lists_of_every_shape"
+    desc = ("lists that mix the families (an IPv6 network first / in the middle / last), repeat or nest networks, in every "
+            "order: for each IPv4 network of the list, the outside addresses that an anonymizer which forgot just that "
+            "network would send into it (computed from the implementation) still map outside; members stay verbatim")
+
+    A, Bn, C, V6, V6b = "20.0.0.0/8", "198.51.100.0/24", "20.7.0.0/16", "2001:db8::/32", "fe80::/10"
+
+    def __init__(self, tier, seed):
+        self.tier, self.seed = tier, seed
+
+    def cases(self):
+        base = [[self.V6, self.A, self.Bn], [self.A, self.V6, self.Bn], [self.A, self.Bn, self.V6], [self.V6, self.V6b, self.A],
+                [self.A, self.A, self.Bn], [self.C, self.A], [self.A, self.C], [self.V6, self.C, self.V6b, self.A, self.Bn],
+                [self.Bn, "198.51.100.7", self.V6, "203.0.113.9/32"]]
+        return [{"nets": nl, "B": B} for nl in base for B in (0, 8)]
+
+    def run(self, case):
+        m = ipdom.mod()
+        res = Res()
+        nl = case["nets"]
+        nets4 = [n for n in (ipaddress.ip_network(x, strict=False) for x in nl) if n.version == 4]
+        for salt in ("saltForTest", "seed%d" % self.seed, "demoSalt0", "k"):
+            env = ["md5", salt]
+            try:
+                an = ipdom.make_v4(env, case["B"], None, list(nl))
+            except Exception as e:
+                res.violation("exception:" + type(e).__name__, "networks %r: %r" % (nl, e), case)
+                return res
+            for k, net in enumerate(nets4):
+                others = [x for x in nl if ipaddress.ip_network(x, strict=False) != net]
+                forgot = ipdom.make_v4(env, case["B"], None, others or None)
+                n_adv = 0
+                for off in (0, 1, 77, net.num_addresses // 2, net.num_addresses - 1):
+                    y = int(net.network_address) + min(off, net.num_addresses - 1)
+                    x = forgot.deanonymize(y)
+                    if refs.in_any(x, nets4) or refs.is_mask32(x):
+                        continue
+                    n_adv += 1
+                    res.evals += 1
+                    out = m.anonymize_ip_addr(an, "a %s b" % refs.v4_text(x), False).split()[1]
+                    res.out((salt, str(net), out))
+                    if refs.in_any(int(ipaddress.IPv4Address(out)), nets4):
+                        res.violation("outside-address-mapped-into-preserved-network|list-shape",
+                                      "networks %r host bits %d salt %r: %s (outside) -> %s (inside %s)" % (
+                                          nl, case["B"], salt, refs.v4_text(x), out, net), case)
+                        return res
+                    y_text = refs.v4_text(y)
+                    kept = m.anonymize_ip_addr(an, "a %s b" % y_text, False).split()[1]
+                    if kept != y_text:
+                        res.violation("preserved-address-rewritten|list-shape", "networks %r: %s -> %s" % (nl, y_text, kept), case)
+                        return res
+                if n_adv:
+                    res.nt((tuple(nl), case["B"], salt, k))
+        res.samples.append(case)
+        return res
+
+
 def parts(tier, seed):
     return [MaskPart(tier, seed), NetworkPart(tier, seed), LazyPart(tier, seed), PrivatePart(tier, seed),
-            LongHistory(tier, seed), SecondAnonymizer(tier, seed), PrivateOptionSpellings(tier, seed), Columns(tier, seed)]
+            LongHistory(tier, seed), SecondAnonymizer(tier, seed), PrivateOptionSpellings(tier, seed), Columns(tier, seed), ListShapes(tier, seed)]
